@@ -368,6 +368,7 @@ def toy : Codec where
       (`in` = blob decoded with `src`; `out` = processed blob decoded with `dst`)
 * `C04 rec <src> <dst> <enc|nil|cut> <payloadhex>` → same for `recompress`
 * `C04 e2e <fmt> <tileformat> <src> <keep|raw|gzip|brotli> <force>` → `declared=<comp>` | `rejected`
+* `C04 leaves <src> <keep|raw|gzip|brotli> <force>` → `declared=<comp>` (PMTiles with leaf directories)
 -/
 
 def Comp.name : Comp → String
@@ -454,6 +455,14 @@ def handle (args : List String) : String :=
       let p : ConvParams := { target := t, force := f }
       if writerAccepts fmt tf (declared r p) then s!"declared={(declared r p).name}" else "rejected"
     | _, _, _, _ => "bad-op"
+  | ["leaves", s, t, f] =>
+    -- a PMTiles conversion whose directory needs leaf directories: same decision as `e2e pmtiles pbf`
+    let tgt : Option (Option Comp) := if t == "keep" then some none else (parseComp t).map some
+    match parseComp s, tgt, parseBool f with
+    | some s, some t, some f =>
+      let r : Reader := { comp := s, tilejson := [], tiles := [] }
+      s!"declared={(declared r { target := t, force := f }).name}"
+    | _, _, _ => "bad-op"
   | ["proc", s, d, f, kind, payload] =>
     match parseComp s, parseComp d, parseBool f, unhex payload with
     | some s, some d, some f, some payload =>
